@@ -82,7 +82,7 @@ static std::string run_case(const Case &c, std::string &msg, size_t *nviol = nul
 // one-step perturbations of a valid table; returns a label
 static const char *perturb(vp::Rng &r, TableD &t) {
     for (int attempt = 0; attempt < 8; attempt++) {
-        switch (r.below(12)) {
+        switch (r.below(14)) {
         case 0: if (!t.regs.empty()) { RegD &x = t.regs[r.below(t.regs.size())]; x.addr += r.chance(1, 2) ? 1u : (uint32_t)-1; return "register-moved-one-word"; } break;
         case 1: if (!t.regs.empty()) { RegD &x = t.regs[r.below(t.regs.size())]; int nt = (int)r.below(rm::NTYPES); if (rm::words(nt) > rm::words(x.type)) { x.type = nt; x.ckind = rm::C_NONE; x.def = gen_finite(r, nt); return "register-grown"; } } break;
         case 2: if (t.regs.size() >= 2) { size_t i = r.below(t.regs.size() - 1); std::swap(t.regs[i], t.regs[i + 1]); return "registers-swapped"; } break;
@@ -94,6 +94,13 @@ static const char *perturb(vp::Rng &r, TableD &t) {
         case 8: if (!t.regs.empty()) { RegD &x = t.regs[r.below(t.regs.size())]; if (x.ckind == rm::C_CB) { x.def ^= (x.cb == 0 ? 1u : x.cb == 1 ? ((x.def & 0xff) ^ 0x2a) : 8u); return "default-fails-callback"; } } break;
         case 9: if (r.chance(1, 6)) { t.areas.clear(); return "no-areas"; } break;
         case 10: { AreaD &a = t.areas[r.below(t.areas.size())]; a.skip_defaults = !a.skip_defaults; return "skip-defaults-toggled"; }
+        case 12: case 13: if (!t.regs.empty()) {   // a range whose limits are in descending order admits nothing: whatever the default is (at a limit, outside, between), it is unacceptable
+            RegD &x = t.regs[r.below(t.regs.size())];
+            if (x.ckind == rm::C_RANGE && rm::cmp(x.type, x.lo, x.hi) < 0) {
+                std::swap(x.lo, x.hi);
+                switch (r.below(5)) { case 0: x.def = x.lo; break; case 1: x.def = x.hi; break; case 2: x.def = step(x.type, x.lo, 1); break; case 3: x.def = step(x.type, x.hi, -1); break; default: break; }
+                return "range-limits-descending";
+            } } break;
         default: { AreaD &a = t.areas[r.below(t.areas.size())]; a.has_write = !a.has_write; return "write-callback-toggled"; }
         }
     }
@@ -117,7 +124,7 @@ static void run() {
     vp::CaseScope scope([] { return ser_case(g_cur); });
     size_t n = (a.thorough() ? 12000000 : 600000) / a.nshards;
     vp::stats().rule = vp::fmt("stratified generation, %zu descriptions per shard: 1/2 valid tables perturbed by exactly one step (register moved/grown/swapped, area base/size changed or areas swapped, "
-                               "default pushed across its bound / to a non-finite class / against its callback, skip-defaults or write callback toggled, no areas), 1/4 valid tables, 1/4 from the raw grid "
+                               "default pushed across its bound / to a non-finite class / against its callback, range limits put in descending order, skip-defaults or write callback toggled, no areas), 1/4 valid tables, 1/4 from the raw grid "
                                "(0-3 areas with bases {0x10,0x14,0x18,0x20} x sizes {1,2,4,8} in any order, 0-3 registers of any type anywhere in 0x0e..0x2b); oracle = rule set of the model with indices, "
                                "post-conditions on storage, area runs and typed access, UNINITIALISED after failure; a third of the cases re-initialise a table object that carries the state of an earlier successful initialisation", n);
     vp::Rng rng(a.seed * 12289 + a.shard);
